@@ -86,7 +86,8 @@ LinesOf(maxsegs, Joiners, ArgForms) ==
     UNION {{[segs |-> Append(ss, LastSeg), joins |-> js] : ss \in SeqsOf(Segs(ArgForms), n), js \in SeqsOf(Joiners, n)} : n \in 1..(maxsegs - 1)}
 Lines == UNION {LinesOf(p[1], p[2], p[3]) : p \in Plans}
 PlansQ == {<<2, JoinerNames, ArgFormNames>>, <<3, {"|", ";", "->", "&&", "?t"}, {"none", "plain"}>>}
-PlansT == {<<2, JoinerNames, ArgFormNames>>, <<3, {"|", ";", "->", "&&", "?t"}, {"none", "plain", "subshell", "append", "appendt"}>>}
+\* (three segments: 46 segment shapes squared x 16 joiner pairs = 34 k lines; sub-shell and file forms are in the two-segment plan)
+PlansT == {<<2, JoinerNames, ArgFormNames>>, <<3, {"|", ";", "->", "?t"}, {"none", "plain", "appendt"}>>}
 
 RECURSIVE Render(_, _, _)
 Render(l, k, upto) == IF k > upto THEN <<>>
